@@ -175,9 +175,9 @@ func verifMax(a, b int) int {
 func TestVerifBounded_C15_PlantedRepeats(t *testing.T) {
 	seed, _ := strconv.Atoi(os.Getenv("VERIF_SEED"))
 	rnd := rand.New(rand.NewSource(int64(seed) + 15))
-	runs, maxBg := 24, 4000
+	runs, maxBg := 120, 4000
 	if os.Getenv("VERIF_TIER") == "thorough" {
-		runs, maxBg = 150, 12000
+		runs, maxBg = 600, 12000
 	}
 	cases, nontrivial, totalHits := 0, 0, 0
 	failed := 0
